@@ -80,7 +80,13 @@ class Engine:
     def oblige(self, st, name, goal, line=0, canary=False):
         goal = unwrap(goal)
         if is_and(goal) and not canary:
-            for i, g in enumerate(goal.children()):
+            flat = []
+            def fl(g):
+                if is_and(g):
+                    for c in g.children(): fl(c)
+                else: flat.append(g)
+            fl(goal)
+            for i, g in enumerate(flat):
                 self.obls.append(Obligation(self.cur_key, f'{name} #{i}', list(st.pc), g, line))
             return
         self.obls.append(Obligation(self.cur_key, name, list(st.pc), goal, line, canary))
@@ -649,8 +655,9 @@ class Engine:
                     self.oblige(e_st, f'loop {ordinal} inv-preserved', next_done_inv(e_st), s.lineno)
                 elif oc == 'break': results.append((e_st, 'normal'))
                 else: results.append((e_st, oc))
-        def exit_state(final_inv):
+        def exit_state(final_inv, extra=None):
             ex = st.copy(); self.havoc(ex, mod, f'X{ordinal}'); ex.pc.append(final_inv(ex))
+            if extra is not None: ex.pc.append(extra(ex))          # negated loop condition of a `while`: known before the exit lemma is stated
             lp = self.cur.loop_post.get(ordinal)
             if lp is not None:
                 g = unwrap(lp(NS(ex.env))); self.oblige(ex, f'loop {ordinal} exit-lemma', g, s.lineno); ex.pc.append(g)
@@ -660,7 +667,7 @@ class Engine:
             it = st.copy(); self.havoc(it, mod, f'L{ordinal}'); it.pc.append(INV(it, None))
             it.pc.append(self.truthy(self.ev(s.test, it)))
             finish(self.ex_block(s.body, it, path), lambda e_st: INV(e_st, None))
-            ex = exit_state(lambda x: INV(x, None)); ex.pc.append(Not(self.truthy(self.ev(s.test, ex))))
+            ex = exit_state(lambda x: INV(x, None), extra=lambda x: Not(self.truthy(self.ev(s.test, x))))
             results.append((ex, 'normal')); return results
         coll, binder = self.loop_iter(s, st); t = coll.t; tn = self.target_names(s.target)
         if isinstance(t, TSeq):
